@@ -88,7 +88,9 @@ Inductive vmut :=
 | VuSMul (x : T)                  (* v = x * v *)
 | VuDivS (x : T)                  (* v = v / x *)
 | VuZero (n : nat)                (* v = Vector(n) *)
-| VuDefault.                      (* v = Vector() *)
+| VuDefault                       (* v = Vector() *)
+| VuNormalize                     (* v.Normalize() *)
+| VuNormalized.                   (* v = v.Normalized() *)
 
 Definition v_mut (vs : list (vec T)) (v : vec T) (o : vmut) : res (vec T) :=
   match o with
@@ -109,8 +111,23 @@ Definition v_mut (vs : list (vec T)) (v : vec T) (o : vmut) : res (vec T) :=
   | VuDivS x => Ok (v_assign_from v (vdivs Ops v x))
   | VuZero n => Ok (v_assign_from v (v_zero Ops n))
   | VuDefault => Ok (v_assign_from v (v_default Ops))
+  | VuNormalize => v_normalize Ops v
+  | VuNormalized => let* w := v_normalized Ops v in Ok (v_assign_from v w)
   end.
 
 Definition life_v (vs : list (vec T)) (k : nat) (o : vmut) : res (list (vec T)) :=
   let* v := get vs k in let* v' := v_mut vs v o in Ok (upd k v' vs).
+
+(** ** whole sessions: the live matrices and vectors, and a list of calls that change one of them.
+    [life_run] is the fold of [life_step] over the calls of the session in the order they are made; a call that exits
+    ends the session ([Exit] is absorbing).  ocaml/C04_driver.ml advances the objects of a `life` case by [life_step]. *)
+Inductive lstep := LM (k : nat) (o : mmut) | LV (k : nat) (o : vmut).
+Definition lstate := (list (mat T) * list (vec T))%type.
+Definition life_step (st : lstate) (s : lstep) : res lstate :=
+  match s with
+  | LM k o => let* ms := life_m (fst st) k o in Ok (ms, snd st)
+  | LV k o => let* vs := life_v (snd st) k o in Ok (fst st, vs)
+  end.
+Definition life_run (st : lstate) (steps : list lstep) : res lstate :=
+  fold_left (fun acc s => let* st := acc in life_step st s) steps (Ok st).
 End Life.
